@@ -84,6 +84,16 @@ CHECKS = {
              "reachability twin must be refuted. Sequences of up to 2 (quick) / 3 (thorough) items are enumerated natively.",
         note="Trusted: CrossHair/z3. Bound: one item per section under CrossHair (two in thorough); longer documents and longer "
              "numerals are covered by native enumeration or not at all."),
+    "C16": dict(
+        level="model_checking", design="5/C16", engine="E3 Realize-SMT (own synthesis encoding, z3)",
+        technique="SMT synthesis queries over all instruction sequences within the published bounds (existence and "
+                  "non-existence), witnesses replayed on a reference stack machine",
+        text="For every specification the real front-end produces on the families (4 option sets) z3 decides, with an "
+             "independent stack-machine encoding in which the instruction sequence is free, that a realizing sequence exists "
+             "within init_progr_len and max_sk_sz (the witness is replayed on vlib.realize.simulate) and that none exists below "
+             "min_length, min_length_instrs and min_length_bounds; original_instrs is compared with the reported sub-block.",
+        note="Trusted: vlib.synth (validated against vlib.realize on every witness), z3. Specifications with init_progr_len > 10 "
+             "are counted, not decided."),
     "C17": dict(
         level="other", design="5/C17", engine="pysym on generate_push_instruction + enumerated finite domains + pipeline",
         technique="symbolic execution (AST -> z3) of the push generator with a symbolic PUSH0 flag and constant; finite "
